@@ -19,6 +19,8 @@ CLAIMED["C06"] = ("other", "TXIDs and checksums are touched only through compari
   "decision-table extraction by path enumeration with phi/cell resolution, CFG guarded-by / no-path rules, origin rendering over go/ssa")
 CLAIMED["C09"] = ("other", "Chain invariants as structure: header provenance of the four local creators (TXID+1, pre = previous post), temp names and listings that ignore unparsable names, acceptance only of files that extend the exact position and verify, snapshot clears the directory, and the retention delete decision extracted by path enumeration with phi resolution (never the newest file; older than the cut-off; below the high-water mark when a backup client is configured), HWM provenance. Does NOT decide chain validity over arbitrary histories or sweep/stream races.", "DESIGN.md section 4 C09",
   "origin rendering of headers, path enumeration with phi resolution for the retention formula, who-may-call tables, CFG rules over go/ssa")
+CLAIMED["C04"] = ("other", "The from-scratch checksum is a function of file bytes (not statically computable); decided instead: the incremental cache is updated wherever database bytes change and only consistently - enumerated file write/truncate sites vs table, page write => checksum update with the same arguments, truncate => reset, ownership of the cache fields, unconditional block-cache clear, lock page = 0, mutex discipline incl. call sites of must-hold helpers, empty checksum, aggregation guards and overridden-block marking, block arithmetic, WAL overlay ownership/lookup order, the two verification points. Does NOT decide numeric equality with CRC64 over real bytes.", "DESIGN.md section 4 C04",
+  "who-may-write tables, CFG after/guarded rules, OnlyGuards (effect unconditional), mutex-held rule, origin rendering over go/ssa")
 REASONS = {}
 def main():
     checks=[]
